@@ -1104,6 +1104,9 @@ def main():
         replay(chk, chk.args.replay)
         return
     chk.coq_props()
+    # tie 1: translator (Gen/BtpuBudget.v regenerated by coq_props from the tree under test)
+    (tr_ok, tr_err) = chk.translate_ok('btpubudget')
+    run = None
     try:
         run = run_all(chk)
         broken_tie = any(run.mismatch.values())
@@ -1111,6 +1114,18 @@ def main():
         print('model evaluation failed: %s' % str(err)[:1500])
         chk.obligation('correspondence:model-evaluation', False, str(err)[:600])
         broken_tie = True
+    if tr_ok:
+        chk.obligation('translator:btpubudget', True, '')
+    else:
+        # fail-closed translator: the sender fragment is then tied by differential testing only
+        # (DESIGN 3.1); the tie is broken if that cannot confirm agreement either
+        send_agrees = (run is not None and not broken_tie
+                       and any(name == 'correspondence:send' and okay for (name, okay, _d) in chk.obligations))
+        chk.obligation('translator:btpubudget', send_agrees or decided(chk),
+                       'translator failed closed: %s; %s' % (tr_err, 'sender tied by the send correspondence on the full grid instead'
+                                                            if send_agrees else 'and the send correspondence does not confirm agreement'))
+        chk.assumptions.append('translator target btpubudget did not recognise the current shape of Agent._send_transfer (%s): '
+                               'Gen/BtpuBudget.v is stale, the C20_tie_* theorems speak about the previous source' % tr_err[:200])
     for (name, okay, detail) in chk.obligations:
         if not okay:
             print('# broken: %s: %s' % (name, detail[:1200]))
@@ -1126,11 +1141,14 @@ def main():
               'segments, random permutations for 6-33, plus peer-crafted arrivals. Non-trivial: codec frame with more than '
               'one message or hints or padding; decode input that is a valid frame; send case with >= 2 frames; recv case '
               'whose arrival order is not the index order (or more than one arrival for crafted ones). Distinct by input.'),
-        extra_cov=dict(model='coq/Model/Btpu.v', refuted=['C20_declared_lengths_refuted (known finding: 20-bit length overflow)'],
+        extra_cov=dict(model='coq/Model/Btpu.v', gen='coq/Gen/BtpuBudget.v (translate/targets/btpubudget.py)',
+                       refuted=['C20_declared_lengths_refuted (known finding: 20-bit length overflow)'],
+                       partial=['C20_declared_lengths_partial (guard: hints + payload < 2^20)', 'C20_sent_unsegmented_partial (guard: bundle < 2^20 octets)'],
                        notes=['infeasible MTU (<= 18 with a non-fitting bundle) makes _send_transfer loop forever: excluded from the grid, guard mtu_feasible in the theorems',
                               'zero-length unsegmented bundle is not queued by the receiver (no BundlePdu layer); TransferEnd index 0 never completes; empty TransferSeg raises; per-segment timers raise KeyError after completion: outside the property quantifier, modelled and compared, no verdict']),
         assumptions=['harness stubs for dbus, gi.repository.GLib, portion, macaddress, psutil are trusted to behave as the real libraries',
                      'scapy 2.7.0 Packet/Field machinery is mirrored by the hand-written model and validated by correspondence only',
+                     'translate/targets/btpubudget.py renders the whitelisted AST shape of Agent._send_transfer faithfully (cross-checked: the send correspondence compares every frame)',
                      'the oracle\'s own parser of the wire format (spec_parse_frame) is written from the format description in messages.py docstrings/field widths',
                      'timers registered with glib.timeout_add never fire during a receive sequence (timing is outside the quantifier)'])
 
